@@ -283,6 +283,7 @@ func FormatBytes(dst []byte, src []byte, opts *Options) []byte {
 						restOfLine := line[i+2:]
 						restOfSrc := src[lineLength-len(restOfLine):]
 						dst, line, remaining = handleRaw(dst, restOfSrc, starSlash)
+						src, lineLength = srcAfterRaw(restOfSrc, starSlash), len(line)
 						last = lastNonWhiteSpace(line)
 						continue loop
 					}
@@ -300,6 +301,7 @@ func FormatBytes(dst []byte, src []byte, opts *Options) []byte {
 					restOfLine := line[i+1:]
 					restOfSrc := src[lineLength-len(restOfLine):]
 					dst, line, remaining = handleRaw(dst, restOfSrc, backTick)
+					src, lineLength = srcAfterRaw(restOfSrc, backTick), len(line)
 					last = lastNonWhiteSpace(line)
 					continue loop
 				}
@@ -397,6 +399,18 @@ func skipCooked(s []byte, quote byte) (suffix []byte) {
 		}
 	}
 	return nil
+}
+
+// srcAfterRaw returns the part of restOfSrc after the raw string that
+// handleRaw copies. The FormatBytes loop computes later restOfSrc values as
+// offsets from the start of the current line, so after handleRaw has moved on
+// to another line, src and lineLength have to move with it.
+func srcAfterRaw(restOfSrc []byte, endQuote []byte) []byte {
+	end := bytes.Index(restOfSrc, endQuote)
+	if end < 0 {
+		return nil
+	}
+	return restOfSrc[end+len(endQuote):]
 }
 
 // handleRaw copies a raw string from restOfSrc to dst, re-calculating the
